@@ -422,6 +422,7 @@ func runC04(c *Ctx) {
 	// ---- C04.8
 	runC04NonZeroCode(c)
 	runC04Base64Tolerant(c)
+	runC04FallbackAfterParse(c)
 
 	// ---- C04.5
 	c.Rule("C04.5", "the percent-encoding escape set and hex helpers are exactly the gRPC spec's", 4)
@@ -961,5 +962,68 @@ func runC04Base64Tolerant(c *Ctx) {
 	}
 	if n == 0 {
 		c.Bad("C04.9", "package", "base64-decode", token.NoPos, "no base64 decode site found: shape changed")
+	}
+}
+
+// runC04FallbackAfterParse: C04.10 (seed C04g).  A server protocol's error-body unmarshaller (the
+// closure handed back by extractProtocolResponseHeaders) turns the collected body into the RPC
+// error; guessing the code from the HTTP status is the fallback for a body that does not parse.
+// The fallback is therefore reached only through the parse attempt - not through a shortcut that
+// looks at something else first (an exact Content-Type match, say: `application/json;
+// charset=utf-8` is JSON too) and skips the parse, which throws away code, message and details of
+// a perfectly good error body.
+func runC04FallbackAfterParse(c *Ctx) {
+	p := c.P
+	c.Rule("C04.10", "an error body's HTTP-status fallback is reached only after the body failed to parse", 1)
+	mapFn := p.MustFunc("httpStatusCodeToRPC")
+	n := 0
+	for _, fn := range p.Funcs {
+		if fn.Parent() == nil || !p.inScope(fn) {
+			continue
+		}
+		// the unmarshaller shape: (Codec, *bytes.Buffer, *responseEnd)
+		sig := fn.Signature
+		if sig.Params().Len() != 3 || !isPtrTo(sig.Params().At(2).Type(), RootPath, "responseEnd") {
+			continue
+		}
+		isParse := func(in ssa.Instruction) bool {
+			ci, ok := in.(ssa.CallInstruction)
+			if !ok {
+				return false
+			}
+			name := CalleeName(ci)
+			return name == "encoding/json.Unmarshal" || strings.HasSuffix(name, ".Unmarshal") || strings.Contains(name, "Unmarshal")
+		}
+		hasParse := false
+		ForEachInstr(fn, func(in ssa.Instruction) {
+			if isParse(in) {
+				hasParse = true
+			}
+		})
+		if !hasParse {
+			continue // delegates the whole decision (REST: httpErrorFromResponse)
+		}
+		for _, call := range Calls(fn) {
+			if !IsCallTo(call, "connectrpc.com/connect.NewError", "connectrpc.com/connect.NewWireError") {
+				continue
+			}
+			fromStatus := false
+			for _, l := range Origins(call.Common().Args[0]) {
+				if l.Kind == "call" && l.Call.Common().StaticCallee() == mapFn {
+					fromStatus = true
+				}
+			}
+			if !fromStatus {
+				continue
+			}
+			n++
+			found, path := PathQuery{Target: func(in ssa.Instruction) bool { return in == ssa.Instruction(call) }, Avoid: isParse}.Search(fn, nil)
+			c.Check(!found, "C04.10", FuncName(fn), "fallback-only-after-parse", call.Pos(),
+				"every path to the HTTP-status fallback passes the attempt to parse the body",
+				"the error code is guessed from the HTTP status on a path that never tried to parse the body ("+witnessString(p, path)+"): a well-formed error body (e.g. labelled `application/json; charset=utf-8`) loses its code, message and details")
+		}
+	}
+	if n == 0 {
+		c.Bad("C04.10", "server-protocols", "fallback-only-after-parse", token.NoPos, "no error-body unmarshaller with an HTTP-status fallback found: shape changed")
 	}
 }
